@@ -11,6 +11,7 @@ from tools.lib import core
 PROP = 'C19'
 KF = 'F-JINJA-COMMENT-STAR'
 KF2 = 'F-JINJA-AUTOINDENT-NONSTR'
+KF3 = 'F-JINJA-AUTOINDENT-SCOPE'
 
 MANIFEST = dict(
     category='proof',
@@ -26,7 +27,11 @@ MANIFEST = dict(
          'extension skeletons are re-translated from /repo (fail closed); the extracted model is run against Lexer.tokeniter of the '
          'bundled engine AND of stock Jinja2, against filters.do_lineprefix, against rendered auto-indent templates and against '
          'CodeGenEnvironment renderings of assert/ifuses.',
-    note='PARTIAL: whole-engine equivalence with stock Jinja2 is NOT proved (no Gallina semantics of Jinja); it is covered only by '
+    note='Round 5: every function of all 27 vendored modules is shape-pinned (committed 733-entry digest table; upstream 2.11 is not available '
+         'offline, stock 3.1 is a structural reference only); the documented-delta list is re-derived from the tree (markers, package rename, '
+         'git log); end-to-end theorems over the template text (scanner for every regenerated option combination -> wrap -> subparse -> render '
+         'with context) for marker-free templates and for marker print/block statements. '
+         'PARTIAL: whole-engine equivalence with stock Jinja2 is NOT proved (no Gallina semantics of Jinja); it is covered only by '
          'differential execution (bundled 2.11.dev vs. stock 3.1.x plain Environments) over a grammar of the common core, restricted to '
          'constructs whose semantics did not change upstream between 2.11 and 3.1 (exclusions listed in design_notes/C19.md).  Only the '
          'default delimiters with lstrip_blocks/trim_blocks off are modelled; block/variable lexer states are a parameter of the '
@@ -90,6 +95,8 @@ ASP = {'block_start_string': '<%', 'block_end_string': '%>', 'variable_start_str
        'comment_start_string': '<!--', 'comment_end_string': '-->'}
 LS = {'line_statement_prefix': '%%', 'line_comment_prefix': '##'}
 ORACLE_OPTS = [{}, {}, {}, LS, ASP]
+COMBOS = [{}, {'lstrip_blocks': True}, {'trim_blocks': True}, {'lstrip_blocks': True, 'trim_blocks': True}, dict(LS),
+          dict(LS, lstrip_blocks=True, trim_blocks=True), dict(ASP), dict(ASP, lstrip_blocks=True, trim_blocks=True)]   # = gen_c19.COMBOS
 OPT_ATOMS = ['{%', '{{', '{#', '%}', '}}', '#}', '{%-', '{#-', '{{-', '-%}', '-#}', '-}}', '{%+', '{#+', '{%*', '{{*', '{#*',
              ' ', '  ', '\t', '\n', '\n', '\n  ', '\n\t', 'a', 'x', '1', '"', '(', ')', '*', '-', '+', '%', '#', '{', '}',
              '{% raw %}', '{%- raw -%}', '{%+ raw %}', '{% endraw %}', '{%- endraw %}', '{%+ endraw %}', '\n    {% endraw %}', '\n  {% raw %}',
@@ -136,6 +143,10 @@ def excluded_by_upstream_change(src: str, opts: dict) -> bool:
     return False
 
 
+TAG_END = {'block_begin': 'block_end', 'variable_begin': 'variable_end', 'linestatement_begin': 'linestatement_end',
+           'linecomment_begin': 'linecomment_end'}
+
+
 def split_root(toks: typing.List[typing.List[str]], err: typing.Optional[str] = None):
     """tokens yielded in the root/comment/raw states, and the number of characters consumed by each block/variable visit"""
     root, ks, i = [], [], 0
@@ -143,8 +154,8 @@ def split_root(toks: typing.List[typing.List[str]], err: typing.Optional[str] = 
         k, v = toks[i]
         i += 1
         root.append((k, v))
-        if k in ('block_begin', 'variable_begin'):
-            end = 'block_end' if k == 'block_begin' else 'variable_end'
+        if k in TAG_END:
+            end = TAG_END[k]
             n, closed = 0, False
             while i < len(toks):
                 k2, v2 = toks[i]
@@ -202,7 +213,7 @@ def gen_autoindent(rng):
     post = rng.choice(['', '|', '\ntail', ';\n', '\n\nz'])
     nl = rng.choice(['\n', '\n', '\r\n'])
     ctx = {'x': rng.choice(VALUES), 'xs': [rng.choice(VALUES) for _ in range(rng.randrange(0, 4))], 'c': rng.random() < 0.8}
-    kind = rng.choice(['var', 'var', 'varf', 'tuple', 'int', 'if', 'for', 'include', 'set', 'filter', 'call', 'minus'])
+    kind = rng.choice(['var', 'var', 'varf', 'tuple', 'int', 'bind', 'if', 'for', 'include', 'set', 'filter', 'call', 'minus'])
     inc = {}
     if kind == 'var':
         cons = ('{{', ' x }}')
@@ -212,6 +223,9 @@ def gen_autoindent(rng):
         cons = ('{{', rng.choice([' x, c }}', ' x, }}', ' xs|first, xs|last }}']))
     elif kind == 'int':
         cons = ('{{', rng.choice([' xs|length }}', ' 5 }}', ' c }}', ' none }}', ' xs }}']))
+    elif kind == 'bind':     # the binding is used AFTER the block: part of "renders as the plain construct"
+        cons = ('{%', rng.choice([' set y = x %}[{{ y }}]', ' macro mm() %}M{% endmacro %}[{{ mm() }}]', " import 'inc' as lb %}[{{ lb }}]"]))
+        inc = {'inc': 'I'}
     elif kind == 'minus':
         cons = ('{{', ' x -}}  ')
     elif kind == 'if':
@@ -539,7 +553,7 @@ def main(chk: core.Check, replay: typing.Optional[str] = None) -> int:
     rng = chk.rng
 
     # ---- 1. proof obligations against the regenerated translation --------------------------------
-    res = core.coq_check('C19', ['uni', 'jinjascan', 'jinjarules', 'jinjapins'])
+    res = core.coq_check('C19', ['uni', 'jinjascan', 'jinjarules', 'jinjapins', 'jinjavendor', 'jinjarx'])
     chk.proof_coverage(res, [
         'tools/translators/gen_c19.py: root/comment/raw rule patterns of the bundled lexer (ast-rebuilt and compared with the live compiled '
         'rule), root rule of the installed stock Jinja2, do_lineprefix shape translator, autoindent constants, extension skeletons; '
@@ -553,6 +567,17 @@ def main(chk: core.Check, replay: typing.Optional[str] = None) -> int:
     broken: typing.List[str] = []
     if not res.ok:
         broken.append('proof obligation: %s %s' % (res.failed_file or 'translator', res.failed_theorem or ''))
+        if 'JinjaVendor' in (res.failed_file or ''):
+            # name the edited functions of the vendored copy (they must be classified in Gen/JinjaVendorPins.v)
+            try:
+                from tools.translators import gen_c19
+                txt = open(os.path.join(core.COQ, 'theories', 'Gen', 'JinjaVendorPins.v'), encoding='utf-8').read()
+                exp = dict(re.findall(r'\(s2l "([^"]+)", s2l "([0-9a-f]{64})"\)', txt))
+                cur = dict(gen_c19.vendor_tables(core.REPO)[0])
+                changed = sorted(k for k in set(exp) | set(cur) if exp.get(k) != cur.get(k))
+                broken.append('vendored copy: shape of %s differs from the committed digest table' % ', '.join(changed[:12]))
+            except Exception as ex:  # noqa
+                broken.append('vendored copy changed (could not list the functions: %r)' % (ex,))
     ok_model, exe, log = core.build_extracted('c19', 'ExtractC19.v', 'c19_driver.ml')
     if not ok_model:
         broken.append('model does not build/extract: ' + log[-300:])
@@ -580,6 +605,14 @@ def main(chk: core.Check, replay: typing.Optional[str] = None) -> int:
         kf2_live = r2.get('err') == w2['bundled_error']
         if kf2_live:
             chk.report_known(KF2)
+
+    kf3_live = False
+    if chk.is_known(KF3):
+        w3 = chk.known_entry(KF3)['witness']
+        r3 = run_impl('diff', [{'templates': {'main': w3['template']}, 'main': 'main', 'ctx': {}}, {'templates': {'main': w3['plain_construct']}, 'main': 'main', 'ctx': {}}])
+        kf3_live = r3[0].get('b', {}).get('ok') == w3['bundled'] and r3[1].get('s', {}).get('ok') == w3['plain_output']
+        if kf3_live:
+            chk.report_known(KF3)
 
     def kf_trigger(text: str) -> bool:
         """a comment opener directly followed by `*`"""
@@ -676,13 +709,30 @@ def main(chk: core.Check, replay: typing.Optional[str] = None) -> int:
     o_cases = []
     for src0, o in OPT_CORPUS + [(None, None)] * n_lex2:
         if src0 is None:
-            o = dict(rng.choice(ORACLE_OPTS))
-            for flag in ('lstrip_blocks', 'trim_blocks', 'keep_trailing_newline'):
-                if rng.random() < 0.5:
-                    o[flag] = True
+            o = dict(rng.choice(COMBOS))
+            if rng.random() < 0.4:
+                o['keep_trailing_newline'] = True
             src0 = gen_source_opts(rng, o)
         o_cases.append({'src': to_delims(src0, o), 'opts': o})
     o_lexed = run_impl('lex', o_cases)
+    # the generic scanner model (Gen/JinjaRx.v) with the rule list regenerated for that option combination vs. the bundled lexer
+    x_lines, x_idx = [], []
+    for j, (c, lx) in enumerate(zip(o_cases, o_lexed)):
+        base = {k: v for k, v in c['opts'].items() if k != 'keep_trailing_newline'}
+        if 'harness_failure' in lx or base not in COMBOS:
+            continue
+        rb, kb = split_root(lx['b']['toks'], lx['b']['err'])
+        x_lines.append('X B %d %s %s' % (COMBOS.index(base), enc(c['src']), ','.join(map(str, kb)) or '-'))
+        x_idx.append((j, rb))
+    x_out = run_model(exe, x_lines) if ok_model else []
+    for (j, rb), line in zip(x_idx, x_out):
+        lx = o_lexed[j]
+        exp_b = None if lx['b']['err'] else rb
+        got = parse_model_scan(line)
+        bump('traces_bundled_lexer_options')
+        if got != exp_b:
+            bad_model.append({'tie': 'Gen/JinjaRx.v scanx (regenerated rules of the option combination) vs bundled Lexer.tokeniter', 'source': o_cases[j]['src'],
+                              'opts': o_cases[j]['opts'], 'model': got, 'implementation': exp_b, 'impl_error': lx['b']['err']})
     for c, lx in zip(o_cases, o_lexed):
         if 'harness_failure' in lx:
             bad_model.append({'tie': 'lexer harness (options)', 'detail': lx['harness_failure']})
@@ -741,15 +791,19 @@ def main(chk: core.Check, replay: typing.Optional[str] = None) -> int:
         if a['kind'] == 'minus':
             post = post.lstrip()
         expected = a['pre'] + lineprefix_oracle(a['plain_out'], a['ws']) + post
+        if a['kind'] == 'bind':     # the block itself emits nothing; what follows it is outside the marker construct
+            expected = a['pre'] + a['plain_out'] + post
         got = r_marker[i].get('ok')
         if got != expected and kf2_live and a['kind'] in ('tuple', 'int') and r_marker[i].get('err') == 'AttributeError':
             bump('known_finding_instances_autoindent_nonstr')     # trigger: the value of the marker print statement is not a str
+        elif got != expected and kf3_live and a['kind'] == 'bind':
+            bump('known_finding_instances_autoindent_scope')      # trigger: marker block statement binds a name used after it
         elif got != expected:
             bad_oracle.append({'level': 'autoindent', 'case': {k: a[k] for k in ('marker', 'plain', 'ctx', 'ws', 'kind')}, 'implementation': r_marker[i],
                                'expected': expected})
         if ok_model:
             bump('traces_autoindent')
-            if m_ai[i] != 'OK ' + enc(lineprefix_oracle(a['plain_out'], a['ws'])):
+            if a['kind'] != 'bind' and m_ai[i] != 'OK ' + enc(lineprefix_oracle(a['plain_out'], a['ws'])):
                 bad_model.append({'tie': 'subparse_variable/subparse_block + do_lineprefix vs rendered marker template', 'case': a['marker'], 'model': m_ai[i]})
         if a['ws'] and '\n' in a['plain_out'].strip('\n'):
             distinct.add(('ai', a['marker']['main'], json.dumps(a['ctx'], sort_keys=True)))
